@@ -13,42 +13,43 @@ import (
 	"cosmossdk.io/math"
 )
 
-func Int(name string) math.Int                          { panic("nd") }
-func IntN(name string, bits int) math.Int               { panic("nd") }
-func IntS(name string, bits int) math.Int               { panic("nd") }
-func DecS(name string, bits int) math.LegacyDec         { panic("nd") }
-func Dec(name string) math.LegacyDec                    { panic("nd") }
-func DecN(name string, bits int) math.LegacyDec         { panic("nd") }
-func Time(name string) time.Time                        { panic("nd") }
-func Uint64(name string) uint64                         { panic("nd") }
-func Uint32(name string) uint32                         { panic("nd") }
-func Int64(name string) int64                           { panic("nd") }
-func IntRange(name string, lo, hi int64) int64          { panic("nd") }
-func Bool(name string) bool                             { panic("nd") }
-func Pick(name string, n int) int                       { panic("nd") }
-func Assume(c bool)                                     { panic("nd") }
-func Assert(label string, c bool)                       { panic("nd") }
-func Cover(label string)                                { panic("nd") }
-func Known(id string, c bool)                           { panic("nd") }
-func ClearKnown()                                       { panic("nd") }
-func Try(f func()) bool                                 { panic("nd") }
-func Observe(name string, v any)                        { panic("nd") }
-func Option(name string)                                { panic("nd") }
-func Symbolic() bool                                    { panic("nd") }
-func Tier() int                                         { panic("nd") }
-func Param(name string, def int) int                    { panic("nd") }
-func And(cs ...bool) bool                               { panic("nd") }
-func Or(cs ...bool) bool                                { panic("nd") }
-func Not(c bool) bool                                   { panic("nd") }
-func Implies(a, b bool) bool                            { panic("nd") }
-func Iff(a, b bool) bool                                { panic("nd") }
-func IteInt(c bool, a, b math.Int) math.Int             { panic("nd") }
-func IteDec(c bool, a, b math.LegacyDec) math.LegacyDec { panic("nd") }
-func IteZ(c bool, a, b Z) Z                             { panic("nd") }
-func IteBool(c bool, a, b bool) bool                    { panic("nd") }
-func IteTime(c bool, a, b time.Time) time.Time          { panic("nd") }
-func IteU64(c bool, a, b uint64) uint64                 { panic("nd") }
-func NewContext(blockTime time.Time) context.Context    { panic("nd") }
+func Int(name string) math.Int                                 { panic("nd") }
+func IntN(name string, bits int) math.Int                      { panic("nd") }
+func IntS(name string, bits int) math.Int                      { panic("nd") }
+func DecS(name string, bits int) math.LegacyDec                { panic("nd") }
+func Dec(name string) math.LegacyDec                           { panic("nd") }
+func DecN(name string, bits int) math.LegacyDec                { panic("nd") }
+func Time(name string) time.Time                               { panic("nd") }
+func Uint64(name string) uint64                                { panic("nd") }
+func Uint32(name string) uint32                                { panic("nd") }
+func Int64(name string) int64                                  { panic("nd") }
+func IntRange(name string, lo, hi int64) int64                 { panic("nd") }
+func Bool(name string) bool                                    { panic("nd") }
+func Pick(name string, n int) int                              { panic("nd") }
+func Assume(c bool)                                            { panic("nd") }
+func Assert(label string, c bool)                              { panic("nd") }
+func Cover(label string)                                       { panic("nd") }
+func Known(id string, c bool)                                  { panic("nd") }
+func ClearKnown()                                              { panic("nd") }
+func Try(f func()) bool                                        { panic("nd") }
+func Observe(name string, v any)                               { panic("nd") }
+func Option(name string)                                       { panic("nd") }
+func Symbolic() bool                                           { panic("nd") }
+func Tier() int                                                { panic("nd") }
+func InitValueBool(binaryPkg, global string, linked bool) bool { panic("nd") }
+func Param(name string, def int) int                           { panic("nd") }
+func And(cs ...bool) bool                                      { panic("nd") }
+func Or(cs ...bool) bool                                       { panic("nd") }
+func Not(c bool) bool                                          { panic("nd") }
+func Implies(a, b bool) bool                                   { panic("nd") }
+func Iff(a, b bool) bool                                       { panic("nd") }
+func IteInt(c bool, a, b math.Int) math.Int                    { panic("nd") }
+func IteDec(c bool, a, b math.LegacyDec) math.LegacyDec        { panic("nd") }
+func IteZ(c bool, a, b Z) Z                                    { panic("nd") }
+func IteBool(c bool, a, b bool) bool                           { panic("nd") }
+func IteTime(c bool, a, b time.Time) time.Time                 { panic("nd") }
+func IteU64(c bool, a, b uint64) uint64                        { panic("nd") }
+func NewContext(blockTime time.Time) context.Context           { panic("nd") }
 
 // Z is a ghost (specification-side) unbounded integer.
 type Z struct{ _ int }
